@@ -95,6 +95,7 @@ theorem attr_value (v : Var) (a : AttrName) (hfit : v.fits a) (p : Nat → Rat) 
     | lit l => simp [Stored.entries, Entry.eval, coerce_num _ _ hfit]
     | arr rows => simp [Stored.entries, Entry.eval, List.map_map, Function.comp_def]
     | arrE es => simp [Stored.entries]
+    | dmat rows => simp [Stored.entries, Entry.eval, List.map_map, Function.comp_def]
     | expr e =>
       simp only at hfit
       cases hw : e.walk with
